@@ -195,9 +195,10 @@ class AiohttpHop:
     has_status_fn = True
 
     def __init__(self, w: World, path: str, sub: Optional[str], status_fn: str, dispatcher_kwargs: Dict[str, Any],
-                 flavour: str = 'async'):
+                 flavour: str = 'async', mounted: Optional[str] = None):
         self.w = w
         self.node = 'aiohttp'
+        self.mounted = mounted
         self.loop = ensure_loop(w)
         self.log: Any = _Log()
         self._seen = 0
@@ -210,6 +211,13 @@ class AiohttpHop:
             d = self.rpc.add_endpoint(sub, error_handlers={}, **dispatcher_kwargs)
             d.add_methods(self.service.registry())
             _wrap_dispatch(w, d, self.node, self.log, 'sub')
+        self.routing_app = self.rpc.app
+        if mounted:
+            # the JSON-RPC application is a sub-application of a parent aiohttp application, mounted under a prefix
+            parent = web.Application()
+            parent.add_subapp(mounted, self.rpc.app)
+            self.routing_app = parent
+            w.probe('aiohttp.mounted_as_subapp')
 
     def post(self, url: str, body: bytes, content_type: Optional[str],
              pieces: Optional[List[Tuple[float, int]]] = None) -> HopResult:
@@ -217,7 +225,8 @@ class AiohttpHop:
         being there when the handler starts; the rest arrives on the virtual clock while the handler is running."""
         res = HopResult()
         loop = self.loop
-        app = self.rpc.app
+        app = self.routing_app
+        url = (self.mounted or '') + url
         w = self.w
 
         async def go() -> None:
